@@ -33,7 +33,8 @@ for _c in ('start-of-unsubmitted-task', 'task-body-ran-twice', 'submit-from-inac
            'live-task-never-finished', 'live-task-never-started', 'result-delivered-twice', 'bad-reply-kind',
            'no-progress-within-step-bound'):
     OWNER[_c] = 'C07'
-for _c in ('cancelled-future-delivered', 'cancelled-result-delivered', 'residue-of-cancelled-work'):
+for _c in ('cancelled-future-delivered', 'cancelled-result-delivered', 'residue-of-cancelled-work',
+           'cancelled-task-started-after-its-worker-saw-the-cancel'):
     OWNER[_c] = 'C12'
 for _c in ('status-inconsistent', 'server-dead-after-request', 'cross-client-leak', 'request-unanswered', 'live-task-refused',
            'raised-error-never-reported'):
@@ -131,6 +132,24 @@ def gen_late_error(rng):
     progs['bad'] = bad
     progs['leaf'] = [['ret']]
     return progs
+
+
+def gen_cancel_deep(rng):
+    """Three levels with a cancel at the top: the root cancels A while A's child B (usually on another worker) is still busy
+    creating grandchildren.  A waits for two things, so that it is often sitting in its worker's ready queue (just woken by
+    the first) when the CANCEL arrives; the grandchildren are then handed to workers that have already seen the CANCEL of
+    their ancestor - and must never start there."""
+    n = rng.randint(2, 4)
+    a_body = rng.choice([
+        [['submit', 'b', 'B'], ['submit', 'c', 'leaf'], ['await', 'c'], ['await', 'b'], ['ret']],
+        [['submit', 'b', 'B'], ['map', 'c', 'leaf', 2], ['next', 'c'], ['await', 'c'], ['await', 'b'], ['ret']],
+        [['submit', 'c', 'leaf'], ['submit', 'b', 'B'], ['await', 'c'], ['await', 'b'], ['ret']],
+    ])
+    b_body = _pad(rng, 8) + [['map', 'g', rng.choice(['leaf', 'leaf', 'G']), n], ['await', 'g'], ['ret']]
+    # (several A's at once: every one of them is an opportunity)
+    first = rng.choice([[['submit', 'a', 'A']], [['map', 'a', 'A', 2]], [['map', 'a', 'A', 3]]])
+    root = first + _pad(rng, 10) + [['cancel', 'a']] + rng.choice([[], [['submit', 'z', 'leaf'], ['await', 'z']]]) + [['ret']]
+    return {'root': root, 'A': a_body, 'B': b_body, 'G': [['submit', 'x', 'leaf'], ['await', 'x'], ['ret']], 'leaf': [['ret']]}
 
 
 def late_error_scripts(rng):
